@@ -402,6 +402,13 @@ func c09Cases(tier string) []c09Case {
 			cs = append(cs, c09Case{Kind: "killat", P: pr[0], N: pr[1], From: from, To: from + 7, Stride: points})
 		}
 	}
+	// process KILLED at the n-th file-system call that touches the store or its temporary file (open, write, fsync,
+	// close, unlink, rename, ...): the commit step itself must be atomic, not only the bytes
+	for _, pr := range [][2]string{{"one", "fifty"}, {"fifty", "empty"}, {"escape", "states"}} {
+		for _, grp := range []string{"open", "sync", "rename", "unlink", "close"} {
+			cs = append(cs, c09Case{Kind: "killat", P: pr[0], N: pr[1], Mode: "sys:" + grp, From: 1, To: 4, Stride: 1})
+		}
+	}
 	// the fully wired sidecar (injector, scrape manager, proxy as in cmd/kvass/sidecar.go) under a configuration
 	// that knows only some of the assigned jobs: what it acknowledged is what a restart resumes
 	for _, cfgJobs := range []string{"node", "node,kubelet", "other"} {
@@ -559,7 +566,7 @@ func init() {
 
 // runC09KillAt: the updating process is killed by the tracer inside the store write.
 func runC09KillAt(w *core.WorkerCtx, idx int, c c09Case) *core.CaseResult {
-	res := &core.CaseResult{Sig: fmt.Sprintf("killat|%s>%s|%d-%d/%d", c.P, c.N, c.From, c.To, c.Stride)}
+	res := &core.CaseResult{Sig: fmt.Sprintf("killat|%s|%s>%s|%d-%d/%d", c.Mode, c.P, c.N, c.From, c.To, c.Stride)}
 	if _, err := exec.LookPath("strace"); err != nil {
 		res.Inconcl = "strace not available: " + err.Error()
 		return res
@@ -582,7 +589,7 @@ func runC09KillAt(w *core.WorkerCtx, idx int, c c09Case) *core.CaseResult {
 		if full < 3 {
 			lim = 1
 		}
-		dir := filepath.Join(w.Scratch, fmt.Sprintf("killat-%d-%d", idx, lim))
+		dir := filepath.Join(w.Scratch, fmt.Sprintf("killat-%d-%d-%d", idx, lim, k))
 		_ = os.RemoveAll(dir)
 		setup := newTM(dir)
 		if err := setup.Load(); err != nil {
@@ -597,6 +604,13 @@ func runC09KillAt(w *core.WorkerCtx, idx int, c c09Case) *core.CaseResult {
 		store := filepath.Join(dir, "kvass-shard.json")
 		cmd := exec.Command("strace", "-f", "-o", "/dev/null", "-P", store, "-P", store+".tmp", "-e", "trace=write", "-e", "inject=write:signal=KILL:when=3",
 			w.Self, "c09child", "--mode", "killone", "--dir", dir, "--n", c.N, "--from", fmt.Sprint(lim))
+		if strings.HasPrefix(c.Mode, "sys:") {
+			calls := map[string]string{"open": "openat,open,creat", "sync": "fsync,fdatasync", "rename": "rename,renameat,renameat2",
+				"unlink": "unlink,unlinkat", "close": "close"}[strings.TrimPrefix(c.Mode, "sys:")]
+			// k-th such call on the store or its temporary file, no size limit on the write
+			cmd = exec.Command("strace", "-f", "-o", "/dev/null", "-P", store, "-P", store+".tmp", "-e", "trace="+calls, "-e", fmt.Sprintf("inject=%s:signal=KILL:when=%d", calls, k),
+				w.Self, "c09child", "--mode", "killone", "--dir", dir, "--n", c.N, "--from", "-1")
+		}
 		out, _ := cmd.Output()
 		so := strings.TrimSpace(string(out))
 		killed := !strings.HasPrefix(so, "SURVIVED") && !strings.HasPrefix(so, "LOADERR")
@@ -607,8 +621,16 @@ func runC09KillAt(w *core.WorkerCtx, idx int, c c09Case) *core.CaseResult {
 			break
 		}
 		res.Execs++
-		res.AddStat("killat_offsets", 1)
-		if killed {
+		if strings.HasPrefix(c.Mode, "sys:") {
+			res.AddStat("killat_file_system_calls", 1)
+			if killed {
+				res.AddStat("killat_killed_at_a_file_system_call", 1)
+			}
+		} else {
+			res.AddStat("killat_offsets", 1)
+		}
+		if strings.HasPrefix(c.Mode, "sys:") {
+		} else if killed {
 			res.AddStat("killat_killed_inside_write", 1)
 		} else if acked {
 			res.AddStat("killat_update_completed", 1)
@@ -659,7 +681,11 @@ func runC09KillAt(w *core.WorkerCtx, idx int, c c09Case) *core.CaseResult {
 		os.RemoveAll(dir)
 		if bad != "" {
 			kind := strings.SplitN(bad, ":", 2)[0]
-			res.Violate("C09/killat/"+kind, "previous=%s new=%s: process killed inside the store write after %d bytes (killed %v, acknowledged %v): %s", c.P, c.N, lim, killed, acked, bad)
+			where := fmt.Sprintf("inside the store write after %d bytes", lim)
+			if strings.HasPrefix(c.Mode, "sys:") {
+				where = fmt.Sprintf("at the %d. %s call on the store / its temporary file", k, strings.TrimPrefix(c.Mode, "sys:"))
+			}
+			res.Violate("C09/killat/"+kind, "previous=%s new=%s: process killed %s (killed %v, acknowledged %v): %s", c.P, c.N, where, killed, acked, bad)
 			if firstBad == "" {
 				firstBad = fmt.Sprintf("limit %d: %s", lim, bad)
 			}
